@@ -54,7 +54,10 @@ def run(prog, rep):
                           f'AttributeError and that format can never be imported')
     rf = nxi.methods.get('_read_from_file')
     rtxt = ast.unparse(rf)
-    if "'_read_from_file_' + fmt" not in rtxt or 'self.READ_FORMATS' not in rtxt:
+    disp = [c for c in ast.walk(rf) if isinstance(c, ast.Call) and call_name(c) in ('__getattribute__', 'getattr') and
+            any(isinstance(a, ast.BinOp) and isinstance(a.left, ast.Constant) and a.left.value == '_read_from_file_' for a in c.args)]
+    over = [l for l in ast.walk(rf) if isinstance(l, ast.For) and ast.unparse(l.iter).endswith('READ_FORMATS')]
+    if not disp or not over:
         raise AnalysisError('_read_from_file: dispatch idiom not recognised')
     sg = nxpg.methods.get('serialize_graph')
     branches = {}
@@ -86,9 +89,15 @@ def run(prog, rep):
     if 'GRAPHML' in branches:
         btxt = ast.unparse(branches['GRAPHML'].body)
         rep.instance('R2', 'serialize_graph[GRAPHML] passes through GraphML.networkx_to_neo4j')
-        last = branches['GRAPHML'].body[-1]
-        ok = isinstance(last, ast.Assign) and isinstance(last.value, ast.Call) and call_name(last.value) == 'networkx_to_neo4j' \
-            and ast.unparse(last.targets[0]) == ast.unparse(last.value.args[0]) == 'graph_string'
+        rv = [n for n in walk_no_nested(sg) if isinstance(n, ast.Return) and isinstance(n.value, ast.Name)]
+        rvar = rv[-1].value.id if rv else None
+        gbody = [x for st in branches['GRAPHML'].body for x in ast.walk(st)]
+        assigns = [n for n in gbody if isinstance(n, ast.Assign) and any(isinstance(t, ast.Name) and t.id == rvar for t in n.targets)]
+        last = assigns[-1] if assigns else None
+        ok = last is not None and isinstance(last.value, ast.Call) and call_name(last.value) == 'networkx_to_neo4j' \
+            and last.value.args and isinstance(last.value.args[0], ast.Name) and \
+            (last.value.args[0].id == rvar or any(isinstance(a, ast.Assign) and any(isinstance(t, ast.Name) and t.id == last.value.args[0].id for t in a.targets)
+                                                  and 'generate_graphml' in ast.unparse(a.value) for a in gbody))
         if not ok:
             rep.violation('R2', loc(nxpg.module, branches['GRAPHML']), 'NetworkXPropertyGraph.serialize_graph', 'GraphML text not passed through the label markup',
                           'the GraphML string returned must be the result of GraphML.networkx_to_neo4j; without it the Neo4j '
@@ -142,7 +151,10 @@ def run(prog, rep):
                           'the markup returns before labelling nodes and edges on some inputs (e.g. a graph without edges declares '
                           'no edge Class key): the text then carries no labels at all')
     final = rets[-1] if rets else None
-    if final is None or 'tostring(tree' not in ast.unparse(final):
+    tree_vars = [n.targets[0].id for n in walk_no_nested(n2n) if isinstance(n, ast.Assign) and isinstance(n.value, ast.Call) and call_name(n.value) in ('fromstring', 'parse', 'XML')
+                 and isinstance(n.targets[0], ast.Name)]
+    if final is None or not any(isinstance(c, ast.Call) and call_name(c) == 'tostring' and c.args and isinstance(c.args[0], ast.Name) and c.args[0].id in tree_vars
+                               for c in ast.walk(final)):
         rep.violation('R2', loc(gml.module, n2n), 'GraphML.networkx_to_neo4j', 'result is not the modified tree', 'the marked-up tree must be returned')
     # class key lookup for both scopes
     ktxt = ast.unparse(n2n)
@@ -202,7 +214,7 @@ def run(prog, rep):
         rep.instance('R3', f'{fq}: write@{wr[0].lineno if wr else None} flush@{fl[0].lineno if fl else None} reads@{[c.lineno for c in rd]}')
         inside = all(any(x is c for x in ast.walk(w)) for c in rd)
         ok = bool(wr) and bool(fl) and bool(rd) and wr[0].lineno < fl[0].lineno < min(c.lineno for c in rd) and inside \
-            and ast.unparse(wr[0].args[0]) == 'graph_string'
+            and isinstance(wr[0].args[0], ast.Name) and wr[0].args[0].id in [a.arg for a in fn.args.kwonlyargs + fn.args.args]
         if not ok:
             rep.violation('R3', loc(imod, w), fq, 'temporary file not written+flushed before, or not alive while, it is read',
                           'the serialized text reaches the reader through a temporary file: it must be written and flushed before '
@@ -221,7 +233,9 @@ def run(prog, rep):
     ggi = abci.methods.get('get_graph_id')
     gtxt = ast.unparse(ggi)
     rep.instance('R3', 'get_graph_id rejects texts with more than one GraphID')
-    if 'len(graph_ids) > 1' not in gtxt or not any(isinstance(x, ast.Raise) for x in ast.walk(ggi)):
+    multi = [n for n in ast.walk(ggi) if isinstance(n, ast.If) and isinstance(n.test, ast.Compare) and isinstance(n.test.ops[0], (ast.Gt, ast.GtE, ast.NotEq))
+             and isinstance(n.test.left, ast.Call) and call_name(n.test.left) == 'len' and any(isinstance(x, ast.Raise) for x in n.body)]
+    if not multi:
         rep.violation('R3', loc(abci.module, ggi), 'ABCGraphImporter.get_graph_id', 'mixed graph ids not rejected', 'a text mixing graph ids must be rejected')
     # Topology.load routes to the right entry point
     topo = prog.cls(TOPO)
@@ -277,9 +291,18 @@ def run(prog, rep):
     eg = ste.methods.get('extract_graph')
     etxt = ast.unparse(eg)
     rep.instance('R4', 'shared extract_graph: edges via to_dict_of_dicts/from_dict_of_dicts, node data merged for every selected node')
-    okE = 'nx.to_dict_of_dicts(self.graphs, graph_nodes)' in etxt and 'nx.from_dict_of_dicts(edge_dict)' in etxt
-    merge_loops = [n for n in walk_no_nested(eg) if isinstance(n, ast.For) and ast.unparse(n.iter) == 'graph_nodes' and
-                   any(isinstance(c, ast.Call) and call_name(c) == 'update' and 'self.graphs.nodes[' in ast.unparse(c) for c in ast.walk(n))]
+    scs0 = nxg.search_calls(eg)
+    nodes_var = None
+    for n in walk_no_nested(eg):
+        if isinstance(n, ast.Assign) and scs0 and any(x is scs0[0] for x in ast.walk(n.value)) and isinstance(n.targets[0], ast.Name):
+            nodes_var = n.targets[0].id
+    d2 = [c for c in ast.walk(eg) if isinstance(c, ast.Call) and call_name(c) == 'to_dict_of_dicts']
+    f2 = [c for c in ast.walk(eg) if isinstance(c, ast.Call) and call_name(c) == 'from_dict_of_dicts']
+    okE = bool(d2) and bool(f2) and nodes_var is not None and len(d2[0].args) >= 2 and ast.unparse(d2[0].args[0]) == 'self.graphs' \
+        and ast.unparse(d2[0].args[1]) == nodes_var
+    merge_loops = [n for n in walk_no_nested(eg) if isinstance(n, ast.For) and ast.unparse(n.iter) == nodes_var and
+                   any(isinstance(c, ast.Call) and call_name(c) == 'update' and c.args and ast.unparse(c.args[0]) == f'self.graphs.nodes[{ast.unparse(n.target)}]'
+                       for c in ast.walk(n))]
     if not okE:
         rep.violation('R4', loc(ste.module, eg), f'{ste.name}.extract_graph', 'edge data not copied', 'edges and their properties of the selected nodes must be copied')
     if not merge_loops:
@@ -306,7 +329,8 @@ def run(prog, rep):
                           'node_link_data and node_link_graph are called with different key options (edges=/link=/source=...): '
                           'the reader does not find the keys the writer used')
     rg = nxi.methods.get('_read_from_file_graphml')
-    if 'nx.read_graphml(file_name)' not in ast.unparse(rg):
+    rgc = [c for c in ast.walk(rg) if isinstance(c, ast.Call) and call_name(c) == 'read_graphml']
+    if not rgc or not rgc[0].args or not isinstance(rgc[0].args[0], ast.Name) or rgc[0].args[0].id not in [a.arg for a in rg.args.args]:
         rep.violation('R5', loc(imod, rg), 'NetworkXGraphImporter._read_from_file_graphml', 'GraphML reader', 'GraphML must be read with networkx read_graphml')
 
     # ---- R6 ----
